@@ -261,6 +261,19 @@ func ops(m *model, k int) (out []struct {
 			add(step{Op: "rebuild_drop_readd_column", SQL: append(append([]string{}, stmts...), "ALTER TABLE `t` ADD COLUMN `b` text NULL"),
 				Expect: []expect{{"DS103", "b", []string{"CREATE TABLE `new_t`", "ALTER TABLE `t` DROP COLUMN `b`"}}}}, readd(m))
 		}
+		// dropped, added back and dropped again: the column is gone.
+		if t.col("b") != nil {
+			n := m.clone()
+			nt := n.table("t")
+			for i, c := range nt.Cols {
+				if c.Name == "b" {
+					nt.Cols = append(nt.Cols[:i], nt.Cols[i+1:]...)
+					break
+				}
+			}
+			add(step{Op: "drop_readd_drop_column", SQL: []string{"ALTER TABLE `t` DROP COLUMN `b`", "ALTER TABLE `t` ADD COLUMN `b` text NULL", "ALTER TABLE `t` DROP COLUMN `b`"},
+				Expect: []expect{{"DS103", "b", []string{"ALTER TABLE `t` DROP COLUMN `b`"}}}}, n)
+		}
 		// change column type a integer -> text by rebuild: nothing lost
 		if c := t.col("a"); c != nil && c.Type == "integer" {
 			n := m.clone()
@@ -358,6 +371,18 @@ func ops(m *model, k int) (out []struct {
 	if u := m.table("u"); u != nil {
 		add(step{Op: "drop_recreate_table", SQL: []string{"DROP TABLE `u`", createSQL(u, "u")},
 			Expect: []expect{{"DS102", "u", []string{"DROP TABLE `u`"}}}}, m.clone())
+	}
+	// dropped, created again and dropped again in one file: the table and its rows are gone.
+	if u := m.table("u"); u != nil {
+		n := m.clone()
+		for i, x := range n.Tables {
+			if x.Name == "u" {
+				n.Tables = append(n.Tables[:i], n.Tables[i+1:]...)
+				break
+			}
+		}
+		add(step{Op: "drop_recreate_drop_table", SQL: []string{"DROP TABLE `u`", createSQL(u, "u"), "DROP TABLE `u`"},
+			Expect: []expect{{"DS102", "u", []string{"DROP TABLE `u`"}}}}, n)
 	}
 	// long files (more than 10 statements; the analyzers' loader treats long files specially):
 	// (a) five temporary tables created and dropped, then DROP TABLE u;
@@ -702,7 +727,7 @@ func Run(r *report.Run) {
 	if r.Tier == "thorough" {
 		depth = 3
 	}
-	r.Rule = fmt.Sprintf("BFS to depth %d over schema evolutions of a two-table SQLite schema (add table, add nullable column, add index, drop column by ALTER, drop column by table rebuild, drop column (by ALTER / by rebuild) and add it back in the same file, drop table, drop table and create it again in the same file, change type by rebuild, add check by rebuild, drop VIRTUAL column, temporary table / temporary column inside one file, a rebuild directly followed by DROP TABLE, two rebuilds in one file, two destructive statements of which one is silenced by atlas:nolint, files of more than 10 statements ending in DROP TABLE / containing a column-dropping rebuild); every history becomes a migration directory in which the last file is written by hand and, where the evolution can be expressed as a desired schema, also by the real `atlas migrate diff` (earlier files hand-written); x --latest N for every N<=depth (and, for --latest 1, the hand-written file saved with CR LF line endings below 200 comment lines); the line number atlas prints for each diagnostic must be the line its byte position is on; the real `atlas migrate lint` runs against a real SQLite dev database; states de-duplicated by the canonical schema model for expansion; non-trivial = every directory; distinct = (history, producer, N)", depth)
+	r.Rule = fmt.Sprintf("BFS to depth %d over schema evolutions of a two-table SQLite schema (add table, add nullable column, add index, drop column by ALTER, drop column by table rebuild, drop column (by ALTER / by rebuild) and add it back in the same file, drop table, drop table and create it again in the same file, change type by rebuild, add check by rebuild, drop VIRTUAL column, temporary table / temporary column inside one file, a rebuild directly followed by DROP TABLE, two rebuilds in one file, two destructive statements of which one is silenced by atlas:nolint, a table / column dropped, added back and dropped again, files of more than 10 statements ending in DROP TABLE / containing a column-dropping rebuild); every history becomes a migration directory in which the last file is written by hand and, where the evolution can be expressed as a desired schema, also by the real `atlas migrate diff` (earlier files hand-written); x --latest N for every N<=depth (and, for --latest 1, the hand-written file saved with CR LF line endings below 200 comment lines); the line number atlas prints for each diagnostic must be the line its byte position is on; the real `atlas migrate lint` runs against a real SQLite dev database; states de-duplicated by the canonical schema model for expansion; non-trivial = every directory; distinct = (history, producer, N)", depth)
 	r.Assumptions = []string{
 		"a file is destructive iff it removes a table or a non-virtual column that existed before the file (reference model of the evolution)",
 		"for a table rebuild the diagnostic position is the first statement of the CREATE/INSERT/DROP/RENAME group, as sqlitecheck documents",
